@@ -14,13 +14,14 @@ LEVEL = 'exploration'
 SHARDS = {'quick': 4, 'thorough': 16}
 RULE = (
     'Function level: G-params (specific yield and transmissivity of both kinds) x (ET, curvature) in {(0,+), (+,0), '
-    '(+,+)} x ascending and descending level grids below the transmissivity ceiling, handed to the real '
+    '(+,+)} x ascending and descending level grids (float and integer dtype) below the transmissivity ceiling, handed to the real '
     'compute_recession_curve.  Oracle: t[j]-t[i] against quad with every knot as break point and epsrel 1e-12 on the '
-    'same callables (1e-6 relative, the documented accuracy of the unaided per-cell quad); time increases as level '
+    'same callables (1e-6 relative + 2e-8 d per cell, the documented stopping rule of the unaided per-cell quad); time increases as level '
     'falls; mean equals the requested mean; values at shared levels unchanged (up to the mean shift) under '
     'refinement and under reversal of the grid; with zero curvature ET * dt = -dW of the real compute_rise_curve.  '
     'CLI level: planted / noisy datasets with time-varying ET (weekly, diurnal, random) and an assembled recession '
-    'curve through set-curvature and `spowtd simulate recession`: a spy on compute_recession_curve records the ET, '
+    'curve through set-curvature and `spowtd simulate recession` with spline, PEATCLSM and mixed (spline specific yield + '
+    'PEATCLSM transmissivity and vice versa) parameter files: a spy on compute_recession_curve records the ET, '
     'curvature and transmissivity callable the command really used; ET must equal the mean of the evapotranspiration '
     'rows over all steps inside the intervals of recession_interval (recomputed from the base tables), curvature '
     'must be m/km2 * 1e-3, transmissivity must be in m2/d; the table must list (level mm, measured d, simulated d) '
@@ -43,6 +44,8 @@ REQUIRED = {
         'refinements-compared': 30,
         'zero-curvature-water-balance-checked': 8,
         'peatclsm-cases': 5,
+        'integer-typed-grids': 4,
+        'cli-mixed-parameter-kinds': 2,
         'cli-et-checked-against-interval-average': 6,
         'cli-et-first-step-average-differs-by-5-percent': 3,
         'cli-tables-checked': 6,
@@ -102,6 +105,14 @@ def check_function_case(ctx, rng, kind, combo):
     grid = np.array([g for g in grid if g < ceiling])
     if len(grid) < 3:
         return
+    if rng.random() < 0.2 and grid[-1] - grid[0] > 8:
+        # integer-typed level grid, e.g. np.arange(0, -401, -50)
+        lo_i, hi_i = int(np.ceil(grid[0])), int(np.floor(grid[-1]))
+        grid = np.arange(lo_i, hi_i + 1, max(1, (hi_i - lo_i) // rng.randint(2, 12)))
+        grid = grid[grid < ceiling]
+        rec.hit('integer-typed-grids')
+        if len(grid) < 3:
+            return
     descending = rng.random() < 0.4
     if descending:
         grid = grid[::-1].copy()
@@ -113,7 +124,7 @@ def check_function_case(ctx, rng, kind, combo):
     rec.hit('combo:' + combo)
     if kind == 'peatclsm':
         rec.hit('peatclsm-cases')
-    call = lambda g, m: np.asarray(sim.compute_recession_curve(sy, T, np.array(g, dtype=float), m, kappa, et), dtype=float)
+    call = lambda g, m: np.asarray(sim.compute_recession_curve(sy, T, np.array(g), m, kappa, et), dtype=float)
     try:
         t = call(grid, mean)
     except Exception as exc:  # pylint: disable=broad-except
@@ -123,11 +134,16 @@ def check_function_case(ctx, rng, kind, combo):
         else:
             rec.violation('compute_recession_curve-raises:' + desc['type'], {'exception': desc}, case, 'rec_fn')
         return
+    called_grid = grid
+    grid = grid.astype(float)
     ref = reference_dt(sy, T, grid, et, kappa, breaks)
     scale = max(1e-12, float(np.max(np.abs(ref))))
     d = (t - t[0]) - ref
     rec.note_max('max relative difference to reference quadrature', float(np.max(np.abs(d))) / scale)
-    if float(np.max(np.abs(d))) > 1e-6 * scale:
+    # the implementation integrates each cell with an unaided quad, whose
+    # default stopping rule is max(epsabs = 1.49e-8, epsrel = 1.49e-8 * |I|)
+    abs_tol = 2e-8 * len(grid)
+    if float(np.max(np.abs(d))) > 1e-6 * scale + abs_tol:
         i = int(np.argmax(np.abs(d)))
         rec.violation('elapsed-time-difference-is-not-the-water-balance-integral',
                       {'level': float(grid[i]), 't_minus_t0': float(t[i] - t[0]), 'integral': float(ref[i]), 'scale': scale}, case, 'rec_fn')
@@ -136,16 +152,16 @@ def check_function_case(ctx, rng, kind, combo):
     # time increases as the level falls (sy >= 0 is not guaranteed between knots: test only where the reference agrees)
     order = np.argsort(grid)
     ts = t[order]
-    if float(np.min(np.asarray(sy(np.linspace(grid.min(), grid.max(), 200))))) > 0 and np.any(np.diff(ts) > 1e-9 * scale):
+    if float(np.min(np.asarray(sy(np.linspace(grid.min(), grid.max(), 200))))) > 0 and np.any(np.diff(ts) > 1e-9 * scale + abs_tol):
         rec.violation('elapsed-time-does-not-increase-as-the-level-falls', {'levels': grid[order].tolist()[:8], 't': ts.tolist()[:8]}, case, 'rec_fn')
         return
     if abs(float(t.mean()) - mean) > 1e-9 * max(1.0, abs(mean), scale):
         rec.violation('mean-differs-from-the-requested-mean', {'mean': float(t.mean()), 'requested': mean}, case, 'rec_fn')
         return
     # reversal
-    t_rev = call(grid[::-1], 0.0)[::-1]
+    t_rev = call(called_grid[::-1], 0.0)[::-1]
     d = (t_rev - t_rev[0]) - (t - t[0])
-    if float(np.max(np.abs(d))) > 2e-6 * scale:
+    if float(np.max(np.abs(d))) > 2e-6 * scale + 2 * abs_tol:
         rec.violation('values-at-shared-levels-change-when-the-grid-is-reversed', {'max_change': float(np.max(np.abs(d))), 'scale': scale}, case, 'rec_fn')
         return
     rec.hit('reversals-compared')
@@ -156,7 +172,7 @@ def check_function_case(ctx, rng, kind, combo):
     t_fine = call(fine, 0.0)
     idx = [int(np.where(fine == g)[0][0]) for g in grid]
     d = (t_fine[idx] - t_fine[idx][0]) - (t - t[0])
-    if float(np.max(np.abs(d))) > 2e-6 * scale:
+    if float(np.max(np.abs(d))) > 2e-6 * scale + 4 * abs_tol:
         rec.violation('values-at-shared-levels-change-under-refinement', {'max_change': float(np.max(np.abs(d))), 'scale': scale}, case, 'rec_fn')
         return
     rec.hit('refinements-compared')
@@ -165,7 +181,7 @@ def check_function_case(ctx, rng, kind, combo):
         lhs = et * (t - t[0])
         rhs = -(W - W[0])
         sc = max(1e-9, float(np.max(np.abs(rhs))))
-        if float(np.max(np.abs(lhs - rhs))) > 1e-6 * sc:
+        if float(np.max(np.abs(lhs - rhs))) > 1e-6 * sc + et * abs_tol:
             rec.violation('zero-curvature-elapsed-time-times-ET-is-not-the-storage-released', {'max_difference': float(np.max(np.abs(lhs - rhs))), 'scale': sc}, case, 'rec_fn')
             return
         rec.hit('zero-curvature-water-balance-checked')
@@ -217,22 +233,28 @@ def check_cli_case(ctx, rng, index):
     et_own, et_first, nsteps = own_interval_et(connection)
     connection.close()
     zlo, zhi = min(v[0] for v in view), max(v[0] for v in view)
-    kinds = ['spline'] if black_box else ['spline', 'peatclsm']
+    kinds = ['spline'] if black_box else ['spline', 'peatclsm', rng.choice(['spline-sy+peatclsm-T', 'peatclsm-sy+spline-T'])]
     for kind in kinds:
         rec.case()
-        if kind == 'spline':
+        sy_kind = 'spline' if kind.startswith('spline') else 'peatclsm'
+        T_kind = 'peatclsm' if kind.endswith('peatclsm-T') or kind == 'peatclsm' else 'spline'
+        if '+' in kind:
+            rec.hit('cli-mixed-parameter-kinds')
+        if sy_kind == 'spline':
             n = rng.randint(4, 7)
             sy_const = rng.choice([0.1, 0.25, 0.5])
             psy = {'type': 'spline', 'zeta_knots_mm': [zlo - 10 + (zhi - zlo + 20) * i / (n - 1) for i in range(n)],
                    'sy_knots': [sy_const] * n if black_box else sorted(rng.uniform(0.05, 0.9) for _ in range(n))}
+        else:
+            psy = dict(gen_params.PUBLISHED_SY)
+        if T_kind == 'spline':
             m = rng.randint(2, 5)
             pT = {'type': 'spline', 'zeta_knots_mm': [zlo - 50 + (zhi - zlo + 100) * i / (m - 1) for i in range(m)],
                   'K_knots_km_d': sorted(10 ** rng.uniform(-3, 2) for _ in range(m)), 'minimum_transmissivity_m2_d': 10 ** rng.uniform(-2, 1)}
         else:
-            psy = dict(gen_params.PUBLISHED_SY)
             pT = dict(gen_params.PUBLISHED_T, zeta_max_cm=zhi / 10 + rng.choice([1.0, 20.0]))
         params = {'specific_yield': psy, 'transmissivity': pT}
-        pfile = curves_common.write_yaml(os.path.join(ctx.workdir, 'q{}_{}.yml'.format(index, kind)), params)
+        pfile = curves_common.write_yaml(os.path.join(ctx.workdir, 'q{}_{}.yml'.format(index, kind.replace('+', '_'))), params)
         wcase = dict(case, params=params, curvature=curvature)
         spy = {}
         contracts = instrument.Contracts()
@@ -249,7 +271,7 @@ def check_cli_case(ctx, rng, index):
         outs = {}
         try:
             for obs in (False, True):
-                out = os.path.join(ctx.workdir, 'q{}_{}_{}.out'.format(index, kind, int(obs)))
+                out = os.path.join(ctx.workdir, 'q{}_{}_{}.out'.format(index, kind.replace('+', '_'), int(obs)))
                 argv = ['simulate', 'recession', db, pfile, '-o', out] + (['--observations'] if obs else [])
                 status, exc = data.cli(argv)
                 if exc is not None or status != 0:
@@ -281,7 +303,7 @@ def check_cli_case(ctx, rng, index):
             continue
         Tref = t_mod.create_transmissivity_function(dict(pT))
         zt = 0.5 * (zlo + zhi)
-        factor = 86400.0 if kind == 'peatclsm' else 1.0
+        factor = 86400.0 if T_kind == 'peatclsm' else 1.0
         if abs(float(spy['transmissivity_m2_d'](zt)) - float(Tref(zt)) * factor) > 1e-9 * abs(float(Tref(zt)) * factor):
             rec.violation('transmissivity-used-is-not-in-m2-per-day', {'used': float(spy['transmissivity_m2_d'](zt)), 'expected': float(Tref(zt)) * factor}, wcase, 'rec_cli')
             continue
